@@ -32,12 +32,16 @@ func (ft *fnTrans) call(x ssa.Value, c *ssa.CallCommon, h *Heap, reach string) {
 	var args []TV
 	if c.IsInvoke() {
 		args = append(args, TV{ft.val(c.Value), c.Value.Type()})
+		ft.safe("nil", reach, not(eq(ft.val(c.Value), "(mk-iface 0 0)")), "method call on nil interface value ("+c.Method.Name()+")", c.Pos())
 	}
 	for _, a := range c.Args {
 		args = append(args, TV{ft.val(a), a.Type()})
 	}
 	if nativeModel(key) {
 		ft.vals[x] = ft.native(key, args)
+		return
+	}
+	if ft.higherOrder(x, key, c, h, reach) {
 		return
 	}
 	if fc := vc.P.cs.Funcs[key]; fc != nil {
@@ -579,4 +583,66 @@ func (vc *VC) detUF(key string, i int, argSorts, argTerms []string, resSort stri
 	}
 	vc.global(fn, fmt.Sprintf("(declare-fun %s (%s) %s)", fn, strings.Join(argSorts, " "), resSort))
 	return "(" + fn + " " + strings.Join(argTerms, " ") + ")"
+}
+
+
+// ---- modelled higher-order library helpers taking a function literal ----
+
+func isHigherOrder(key string) bool {
+	switch key {
+	case "slices.ContainsFunc", "slices.IndexFunc", "slices.SortFunc", "slices.SortStableFunc":
+		return true
+	}
+	return false
+}
+
+func (ft *fnTrans) higherOrder(x ssa.Value, key string, c *ssa.CallCommon, h *Heap, reach string) bool {
+	if !isHigherOrder(key) {
+		return false
+	}
+	vc := ft.vc
+	fn, bindings, ok := ft.closureOf(c.Args[1])
+	if !ok {
+		unsup("%s with a function value that is not a literal", key)
+	}
+	s := ft.val(c.Args[0])
+	sl := c.Args[0].Type().Underlying().(*types.Slice)
+	comp := vc.compElems(sl.Elem())
+	elemAt := func(hp Heap, i string) string {
+		return sel(sel(vc.get(hp, comp), "(s-base "+s+")"), "(sidx (s-off "+s+") "+i+")")
+	}
+	vc.nfresh++
+	iv := fmt.Sprintf("i!c%d", vc.nfresh)
+	jv := fmt.Sprintf("j!c%d", vc.nfresh)
+	inRange := func(v string) string { return and("(<= 0 "+v+")", "(< "+v+" (s-len "+s+"))") }
+	vc.assumed["modelled library helper: "+key+" (closure body evaluated in place)"] = true
+	switch key {
+	case "slices.ContainsFunc":
+		p := ft.evalClosure(fn, bindings, []string{elemAt(*h, iv)}, *h)
+		ft.vals[x] = vc.define(nameOr(x, "contains"), "Bool", fmt.Sprintf("(exists ((%s Int)) %s)", iv, and(inRange(iv), p)))
+	case "slices.IndexFunc":
+		r := vc.fresh(nameOr(x, "index"), "Int")
+		pr := ft.evalClosure(fn, bindings, []string{elemAt(*h, r)}, *h)
+		pj := ft.evalClosure(fn, bindings, []string{elemAt(*h, jv)}, *h)
+		vc.assume(and("(<= (- 1) "+r+")", "(< "+r+" (s-len "+s+"))"))
+		vc.assume(implies("(>= "+r+" 0)", pr))
+		vc.assume(fmt.Sprintf("(forall ((%s Int)) (=> (and (<= 0 %s) (< %s (s-len %s)) (or (< %s 0) (< %s %s))) (not %s)))", jv, jv, jv, s, r, jv, r, pj))
+		ft.vals[x] = r
+	case "slices.SortFunc", "slices.SortStableFunc":
+		// in-place: the backing array of s changes inside [off, off+len); result sorted (adjacent pairs) and
+		// every element of the result occurs in the input and vice versa (assumed contract of the library sort)
+		ft.vc.oblige("frame", ft.siteName("frame.sort"), and(reach, "(> (s-len "+s+") 1)"), ft.frameGoal(comp, "(s-base "+s+")"), "in-place sort writes a backing array outside modifies", 0)
+		pre := h.clone()
+		oldT := vc.get(*h, comp)
+		newT := vc.havoc(h, comp)
+		vc.assume(fmt.Sprintf("(forall ((r Int)) (! (=> (not (= r (s-base %s))) (= (select %s r) (select %s r))) :pattern ((select %s r))))", s, newT, oldT, newT))
+		vc.assume(fmt.Sprintf("(forall ((%s Int)) (! (=> (or (< %s (s-off %s)) (>= %s (+ (s-off %s) (s-len %s)))) (= (select (select %s (s-base %s)) %s) (select (select %s (s-base %s)) %s))) :pattern ((select (select %s (s-base %s)) %s))))",
+			iv, iv, s, iv, s, s, newT, s, iv, oldT, s, iv, newT, s, iv))
+		cmpAdj := ft.evalClosure(fn, bindings, []string{elemAt(*h, iv), elemAt(*h, "(+ "+iv+" 1)")}, pre)
+		vc.assume(fmt.Sprintf("(forall ((%s Int)) (=> (and (<= 0 %s) (< (+ %s 1) (s-len %s))) (<= %s 0)))", iv, iv, iv, s, cmpAdj))
+		vc.assume(fmt.Sprintf("(forall ((%s Int)) (=> %s (exists ((%s Int)) (and %s (= %s %s)))))", iv, inRange(iv), jv, inRange(jv), elemAt(*h, iv), elemAt(pre, jv)))
+		vc.assume(fmt.Sprintf("(forall ((%s Int)) (=> %s (exists ((%s Int)) (and %s (= %s %s)))))", iv, inRange(iv), jv, inRange(jv), elemAt(pre, iv), elemAt(*h, jv)))
+		vc.assumeClosed(*h, comp)
+	}
+	return true
 }
